@@ -683,3 +683,139 @@ pub fn config_case(inp: &Input, dwarf_ok: bool) -> Value {
     }
     json!({"id": inp.id, "source": inp.source, "in_has_dwarf": in_has_dwarf, "in_producers": producers_json(&inm), "runs": runs})
 }
+
+// ---- names (C13) ------------------------------------------------------------------------------
+
+fn names_json(m: &AbsModule) -> Vec<Value> {
+    m.names.iter().map(|n| json!({"kind": n.kind, "idx": n.idx, "sub": n.sub, "name": n.name})).collect()
+}
+
+/// local correspondence of one function, observed by aligning the local operands of surviving operators
+fn local_pairs(fin: &absmod::AbsFunc, fout: &absmod::AbsFunc) -> (bool, Vec<(i32, i32)>) {
+    let live = absmod::liveness(&fin.ops);
+    let a: Vec<i32> = fin.ops.iter().zip(live.iter()).filter(|(o, l)| **l && o.o != "Nop" && o.local >= 0).map(|(o, _)| o.local).collect();
+    let b: Vec<i32> = fout.ops.iter().filter(|o| o.local >= 0).map(|o| o.local).collect();
+    if a.len() != b.len() {
+        return (false, vec![]);
+    }
+    let mut pairs: Vec<(i32, i32)> = vec![];
+    for (x, y) in a.iter().zip(b.iter()) {
+        if !pairs.contains(&(*x, *y)) {
+            pairs.push((*x, *y));
+        }
+    }
+    // an unused parameter is treated like an unused local: its name may be dropped (DESIGN.md, tolerance principle)
+    (true, pairs)
+}
+
+pub fn names_case(inp: &Input, cfg: &Cfg, gc_runs: u32) -> Value {
+    let rt = run::roundtrip(&inp.bytes, cfg, gc_runs);
+    let inm = absmod::project(&inp.bytes).unwrap_or_default();
+    let outm = if rt.outcome == "ok" { absmod::project(&rt.out).unwrap_or_default() } else { AbsModule::default() };
+    let mut lm = vec![];
+    for f in &inm.funcs {
+        let fo = rt.sigma.func.get(f.idx as usize).copied().unwrap_or(-1);
+        if f.imported || fo < 0 || outm.funcs.get(fo as usize).is_none() {
+            lm.push(json!({"known": false, "pairs": []}));
+            continue;
+        }
+        let (known, pairs) = local_pairs(f, &outm.funcs[fo as usize]);
+        lm.push(json!({"known": known, "pairs": pairs}));
+    }
+    json!({
+        "id": format!("{}~gc{}", inp.id, gc_runs), "source": inp.source, "outcome": rt.outcome,
+        "in_names": names_json(&inm), "out_names": names_json(&outm), "out_names_ok": outm.name_section_ok || outm.names.is_empty(),
+        "sigma": rt.sigma, "lm": lm, "nparams": inm.funcs.iter().map(|f| f.nparams).collect::<Vec<_>>(),
+    })
+}
+
+// ---- index maps (C19) -------------------------------------------------------------------------
+
+pub fn maps_case(inp: &Input, gc_runs: u32) -> Value {
+    use std::sync::{Arc, Mutex};
+    let inm = absmod::project(&inp.bytes).map(strip_ops_keep_locals).unwrap_or_default();
+    let cap: Arc<Mutex<(Value, Value, Vec<Value>)>> = Arc::new(Mutex::new((Value::Null, Value::Null, vec![])));
+    let cap2 = cap.clone();
+    let n_funcs = inm.funcs.len();
+    let mut config = Cfg::default().to_config();
+    config.on_parse(move |m, ids| {
+        let st = strip_ops(crate::apistate::project_state(m));
+        macro_rules! cap {
+            ($get:ident) => {{
+                let mut v = vec![];
+                let mut i = 0u32;
+                while let Ok(id) = ids.$get(i) {
+                    v.push(id.index() as i32);
+                    i += 1;
+                    if i > 1_000_000 {
+                        break;
+                    }
+                }
+                v
+            }};
+        }
+        let i2id = json!({"func": cap!(get_func), "type": cap!(get_type), "table": cap!(get_table), "memory": cap!(get_memory),
+                          "global": cap!(get_global), "elem": cap!(get_element), "data": cap!(get_data)});
+        let mut locals = vec![];
+        for fi in 0..n_funcs as u32 {
+            let Ok(fid) = ids.get_func(fi) else { break };
+            let mut lids = vec![];
+            let mut ltys = vec![];
+            let mut li = 0u32;
+            while let Ok(l) = ids.get_local(fid, li) {
+                lids.push(l.index() as i32);
+                ltys.push(crate::apistate::vt(&m.locals.get(l).ty()));
+                li += 1;
+            }
+            let args: Vec<i32> = match &m.funcs.get(fid).kind {
+                walrus::FunctionKind::Local(lf) => lf.args.iter().map(|a| a.index() as i32).collect(),
+                _ => vec![],
+            };
+            locals.push(json!({"ids": lids, "types": ltys, "args": args}));
+        }
+        *cap2.lock().unwrap() = (json!(st), i2id, locals);
+        Ok(())
+    });
+    let r = std::panic::catch_unwind(std::panic::AssertUnwindSafe(|| config.parse(&inp.bytes)));
+    let mut module = match r {
+        Ok(Ok(m)) => m,
+        Ok(Err(e)) => return json!({"id": inp.id, "source": inp.source, "outcome": format!("parse-err:{}", run::short(&format!("{:#}", e)))}),
+        Err(p) => return json!({"id": inp.id, "source": inp.source, "outcome": format!("parse-panic:{}", run::short(&run::panic_msg(p)))}),
+    };
+    for _ in 0..gc_runs {
+        if let Err(e) = run::gc(&mut module) {
+            return json!({"id": inp.id, "source": inp.source, "outcome": format!("gc-{}", e)});
+        }
+    }
+    let st2 = strip_ops(crate::apistate::project_state(&module));
+    let em = match run::emit(&mut module, true) {
+        Ok(e) => e,
+        Err(e) => return json!({"id": inp.id, "source": inp.source, "outcome": format!("emit-{}", e)}),
+    };
+    let outm = absmod::project(&em.bytes).map(strip_ops).unwrap_or_default();
+    // id -> index arrays, one slot per arena id of st2
+    let arr = |pairs: &[(i32, i32)], n: usize| -> Vec<i32> {
+        let mut v = vec![-1; n];
+        for (id, idx) in pairs {
+            if (*id as usize) < n {
+                v[*id as usize] = *idx;
+            }
+        }
+        v
+    };
+    let id2idx = json!({
+        "func": arr(&em.emit.func, st2.funcs.len()), "type": arr(&em.emit.ty, st2.types.len()), "table": arr(&em.emit.table, st2.tables.len()),
+        "memory": arr(&em.emit.memory, st2.memories.len()), "global": arr(&em.emit.global, st2.globals.len()),
+        "elem": arr(&em.emit.elem, st2.elems.len()), "data": arr(&em.emit.data, st2.data.len()),
+    });
+    let (st1, i2id, locals) = cap.lock().unwrap().clone();
+    json!({"id": format!("{}~gc{}", inp.id, gc_runs), "source": inp.source, "outcome": "ok", "inm": inm, "st1": st1, "i2id": i2id, "locals": locals,
+           "st2": st2, "id2idx": id2idx, "outm": outm})
+}
+
+pub fn strip_ops_keep_locals(mut m: AbsModule) -> AbsModule {
+    for f in m.funcs.iter_mut() {
+        f.ops.clear();
+    }
+    m
+}
